@@ -86,6 +86,34 @@ fn c06_bridge(c: &SemCase, st: &mut Stats) -> CheckResult {
         let mut shared = 0usize;
         for b in [Backend::Native, Backend::HybridPre, Backend::HybridNoPre, Backend::FromBio] {
             let mut a = build_native_like(p, b);
+            if b != Backend::HybridPre {
+                // the statements' formulas themselves: same handle iff same Boolean function,
+                // constant handle iff valid / unsatisfiable
+                let names: Vec<String> = p.var_container().names().read().unwrap().clone();
+                let perm = sut::perm_from_names(&names, &c.adf.labels)?;
+                let tts: Vec<u128> = (0..n).map(|li| c.adf.acs[perm[li]].tt(n)).collect();
+                let full = if n == 7 { u128::MAX } else { (1u128 << (1u32 << n)) - 1 };
+                for i in 0..n {
+                    if (a.ac[i] == Term::TOP) != (tts[i] == full) || (a.ac[i] == Term::BOT) != (tts[i] == 0) {
+                        return Err(format!(
+                            "{b:?}: statement #{i} has handle {} but its condition is {}",
+                            a.ac[i].value(),
+                            if tts[i] == full { "valid" } else if tts[i] == 0 { "unsatisfiable" } else { "neither valid nor unsatisfiable" }
+                        ));
+                    }
+                    for j in 0..i {
+                        if (a.ac[i] == a.ac[j]) != (tts[i] == tts[j]) {
+                            return Err(format!(
+                                "{b:?}: statements #{j} and #{i} have {} handles ({}, {}) but their conditions denote {} Boolean functions",
+                                if a.ac[i] == a.ac[j] { "equal" } else { "different" },
+                                a.ac[j].value(),
+                                a.ac[i].value(),
+                                if tts[i] == tts[j] { "the same" } else { "different" }
+                            ));
+                        }
+                    }
+                }
+            }
             // grow the table a little through the semantics
             let _ = a.grounded();
             let _: Vec<_> = a.stable().collect();
@@ -144,6 +172,14 @@ pub fn c06(tier: Tier) -> PropSpec {
                 move || program(k, ops, true),
                 |p: &Program, st| run_program(p, Focus::Canonical, st),
             ),
+            // the same sequences and invariants under every cargo feature set (probe binaries of C12)
+            Part::with_shrink(
+                "feature-lanes",
+                tier.pick(300, 3000),
+                200,
+                crate::props::features::probe_ops_case,
+                crate::props::features::c12_check_entry,
+            ),
             Part::new(
                 "adf-bridge",
                 tier.pick(6000, 60000),
@@ -173,6 +209,15 @@ pub fn c07(tier: Tier) -> PropSpec {
                 tier.pick(60000, 400000),
                 move || program(k, ops, true),
                 |p: &Program, st| run_program(p, Focus::Function, st),
+            ),
+            // the same sequences under every cargo feature set (several code paths of restrict and of the
+            // dependency bookkeeping only exist without a feature)
+            Part::with_shrink(
+                "feature-lanes",
+                tier.pick(400, 4000),
+                200,
+                crate::props::features::probe_ops_case,
+                crate::props::features::c12_check_entry,
             ),
             // many short programs on few variables: dense in cache collisions
             Part::new(
